@@ -400,7 +400,9 @@ def _run_model(case, ctx):
                     st3, chk = _call(forward, got)
                     tgt = numpy.array([pts[i] for i in idx])
                     res_ok = st3 == "ok" and numpy.all(numpy.abs(numpy.asarray(chk, dtype=float).reshape(-1) - tgt) <= 1e-6 * numpy.max(numpy.abs(tgt)))
-                    permuted = len(exp) > 1 and all(close(g, e, tol, atol) for g, e in zip(sorted(got), sorted(exp)))
+                    # (tight: every value must be found again, to 1e-5 of itself; a loose absolute allowance would take an
+                    # unconverged small element for a misplaced one)
+                    permuted = len(exp) > 1 and all(close(g, e, 1e-5, 1e-12 * float(numpy.max(numpy.abs(exp)))) for g, e in zip(sorted(got), sorted(exp)))
                     if permuted:
                         # the right values in the wrong places: not a convergence matter
                         key = "%s.%s/array-values-in-wrong-order/%s" % (name, label, kind)
